@@ -1010,9 +1010,51 @@ def _writer(src):
             except Exception as e:  # which specifications build is C19's business
                 _real_cache[key] = core.errname(e)
         return _real_cache[key]
-    gw = GridWriter.__new__(GridWriter)
-    gw.fg = StubGrid(src["stub"])
+    # a stub: a GridWriter built by its own constructor on the smallest valid grid (so that everything __init__ sets up exists,
+    # on the writer and on its real FullGrid), whose five PUBLIC getters are then replaced by those of the stand-in
+    gw = _construct_small_writer()
+    stub = StubGrid(src["stub"])
+    for g in GETTERS:
+        setattr(gw.fg, g, getattr(stub, g))
     return gw
+
+
+SMALL_SPECS = [("zero", "zero", "[1]"), ("zero", "ico_2", "[1]"), ("randomQ_2", "ico_3", "[1,2]")]
+
+
+def _construct_small_writer():
+    from molgri.io import GridWriter
+    last = None
+    for spec in SMALL_SPECS:
+        try:
+            with core.quiet():
+                return GridWriter(*spec)
+        except Exception as e:      # which specifications build is C19's business; try the next one
+            last = e
+    raise core.HarnessError(f"no small GridWriter could be constructed for the stub cases: {last!r}")
+
+
+_PRIVATE_NAME = re.compile(r"(?<![A-Za-z0-9])_[A-Za-z][A-Za-z0-9_]*")
+_probe_cache = {}
+
+
+def _stub_plumbing_failure(e, meth):
+    """an exception raised by a writer call on a STUB object that is about the stub, not about the property: AttributeError /
+    TypeError naming a private attribute or helper, while the same call on a really constructed, unmodified GridWriter works"""
+    if not isinstance(e, (AttributeError, TypeError)) or not _PRIVATE_NAME.search(str(e)):
+        return False
+    if meth not in _probe_cache:
+        d = _fresh_dir()
+        try:
+            with core.quiet():
+                real = _construct_small_writer()
+                getattr(real, meth)(os.path.join(d, "probe.npy" if SAVE.index(meth) < 2 else "probe.npz"))
+            _probe_cache[meth] = True
+        except Exception:
+            _probe_cache[meth] = False
+        finally:
+            shutil.rmtree(d, ignore_errors=True)
+    return _probe_cache[meth]
 
 
 GETTERS = ["get_full_grid_as_array", "get_total_volumes", "get_full_borders", "get_full_distances", "get_full_adjacency"]
@@ -1158,11 +1200,21 @@ def impl_grid(case):
         vals2 = [np.asanyarray(gw2.fg.get_full_grid_as_array()), np.asanyarray(gw2.fg.get_total_volumes()),
                  gw2.fg.get_full_borders(), gw2.fg.get_full_distances(), gw2.fg.get_full_adjacency()]
         sigs2 = [_sig(v) for v in vals2]
+        is_stub = "stub" in case["src"]
         for rnd, (w, ss) in enumerate(((gw, sigs), (gw2, sigs2), (gw, sigs))):
+            k = 0
             try:
                 with core.quiet():
                     for k in range(5):
                         getattr(w, SAVE[k])(os.path.join(d, names[k]))
+            except Exception as e:
+                if (is_stub or rnd == 1) and _stub_plumbing_failure(e, SAVE[k]):
+                    out.setdefault("stub_incompatible", []).append(f"round {rnd} {SAVE[k]}: {core.errname(e)}: {str(e)[:160]}")
+                else:
+                    problems.append({"method": "exception", "round": rnd, "diff": SAVE[k] + " raised " + core.errname(e) + ": " + str(e)[:160]})
+                continue        # the next round writes all five files again with its own writer
+            try:
+                with core.quiet():
                     order = range(5) if rnd != 1 else reversed(range(5))
                     for k in order:
                         got = getattr(gr, LOAD[k])(os.path.join(d, names[k]))
@@ -1191,6 +1243,10 @@ def impl_grid(case):
                     with core.quiet():
                         getattr(gw, meth)(path)
                 except Exception as e:
+                    if "stub" in case["src"] and _stub_plumbing_failure(e, meth):
+                        out.setdefault("stub_incompatible", []).append(f"history step {step} {meth}: {core.errname(e)}: {str(e)[:160]}")
+                        out["history_aborted"] = True
+                        break
                     hist_problems.append({"step": step, "method": meth, "diff": "writer raised " + core.errname(e)})
                     continue
                 # S along the history: the file just written, read with the matching reader
@@ -1457,6 +1513,9 @@ def _cmp_csv(ctx, case, ct, mt2):
     return True
 
 
+_noted_stub = False
+
+
 def compare_grid(ctx, case, out, mouts):
     m = mouts[0]
     if "unbuildable" in out:
@@ -1464,6 +1523,19 @@ def compare_grid(ctx, case, out, mouts):
         return
     src = "real" if "real" in case["src"] else "stub:" + case["src"]["stub"]["flavour"]
     ctx.branch("grid:" + src)
+    if out.get("stub_incompatible"):
+        global _noted_stub
+        ctx.branch("stub_incompatible", len(out["stub_incompatible"]))
+        if not _noted_stub:
+            _noted_stub = True
+            msg = ("a writer call on a synthetic (stub) GridWriter failed on a private attribute / helper although the same call on a "
+                   "really constructed GridWriter works; such cases are counted as stub_incompatible and are neither a failing input "
+                   "nor a correspondence break (all checks on really constructed objects stay as they are). first: "
+                   + out["stub_incompatible"][0])
+            ctx.note(msg)
+            print("NOTE: property=C20 " + msg)
+    if out.get("history_aborted"):
+        return
     if "err" in m:
         ctx.corr("grid history/model error", case, out.get("answers"), m)
         return
